@@ -23,51 +23,68 @@ PROP_ID = 'C13'
 TECHNIQUE = ('runtime post-condition monitors (conservation sums; power-law sums over the oracle excursion maxima) + '
              'trace relations over recorded executions; exhaustive small-alphabet + random workload')
 RULE = ('cases = calls of the real functions. Exhaustive A: every non-constant sequence over {0..4} of length 2..7 (quick) '
-        '/ 2..8 (thorough), each as float64, int64 (or list of ints) and shifted by -2, through both series functions. '
-        'Exhaustive B: every non-constant sequence over {-2..2} of length 2..5 (quick) / 2..6 (thorough) through the cycle '
-        'and amplitude functions (float64 and int64; b in {0.3, 0.34, 0.75, 1}, cut_off in {0, 0.05, 0.1}; inverse and '
-        'identical-component relations). Random: noise / smooth / integer / plateau / '
-        'offset / zero-start / unit-waveform series, n = 2..5000, amplitude 1e-12..1e6 incl. micro-amplitude records '
-        '(unit waveform x 2e-8, 1e-11) with and without large constant offsets, int64 arrays and lists of ints; '
-        'b in U(0.05,1] u {0.3,0.34,0.75,1}, cut_off in {0,0.01,0.1} u U(0,0.1), a_ref and n_cyc in 10^U(-1,1.5) '
-        '(a_ref relative to the record maximum or absolute), scalar and array b. distinct = digest(series, options); '
-        'non-trivial = non-constant series.')
-ASSUMPTIONS = ['NaN-free real input: float64 / integer arrays, lists and tuples; constant series are not judged',
+        '/ 2..8 (thorough) through both series functions as float64, shifted by -2 and as int64 / list of ints (quick: '
+        'integer variant for lengths <= 6). Exhaustive B: every non-constant sequence over {-2..2} of length 2..5 (quick) / '
+        '2..6 (thorough) through the cycle and amplitude functions (float64 and int64; b in {0.3, 0.34, 0.75, 1}, cut_off '
+        'in {0, 0.05, 0.1}; inverse and identical-component relations). Random: noise / smooth / integer / plateau / offset / '
+        'zero-start / unit-waveform / edge (plateau at start or end, extreme at the first or last sample, ending right after a '
+        'sign change) series, n in {2,3,4,5,8,13,50,200,1000,5000} u {2^k-1,2^k,2^k+1: k=6,8,10}, one record > 2**16 on '
+        'every fourth shard (thorough: two per shard); amplitude 1e-12..1e12 incl. micro-amplitude records (unit waveform x '
+        '2e-8, 1e-11) with and without large constant offsets, integer records up to 9e15 (steps whose products exceed '
+        'int64); containers: float64 / int64 arrays, lists and tuples of ints and floats, and on a 120-sample window every '
+        'form of {float32, int8, int16, int32, int64, uint8, uint16 (unit-scaled and filling ~90 % of the dtype range), '
+        'mixed int/float list, non-contiguous and reversed views, read-only arrays, AccSignal.values} for every function '
+        'and both components; b in U(0.05,1] u {0.3,0.34,0.5,0.75,1}, cut_off in {0,0.01,0.0625,0.1} u U(0,0.1), a_ref and '
+        'n_cyc in 10^U(-1,1.5) (a_ref relative to the record maximum or absolute); options as python floats, numpy scalars, '
+        '0-d arrays, python ints (b=1, cut_off=0, integral a_ref / n_cyc), b as ndarray / list / tuple; every third driver '
+        'call by keyword, the others positionally; the same object for both components; back-to-back calls on two inputs of '
+        'one shape with the first result re-read afterwards. distinct = digest(series, container); non-trivial = '
+        'non-constant series.')
+ASSUMPTIONS = ['NaN-free real input of any real dtype and container (integers of magnitude <= 2**53 so that the float64 '
+               'oracle holds the same numbers); constant series are not judged',
                'half-cycle peaks = largest |value| of each maximal run of one strict sign (oracles/peaks.excursions); on '
                'ties the step of a cumulative series may sit at the first or at the last sample attaining the maximum',
                'a peak whose amplitude equals cut_off*max|x| to within 4 ulps may be kept or dropped (the statement does '
                'not fix the side and the product is inexact)',
                'cases whose powers (|p|/a_ref)^(1/b) or |p|^(1/b) leave [1e-280, 1e280] are counted, not judged',
                'conservation sums are compared relative to the total variation (1e-9*TV); power-law values element-wise '
-               'relative (1e-9; 1e-6 for b < 0.1): samples before the first counted peak must be exactly 0',
+               'relative (1e-9; 1e-6 for b < 0.1): samples before the first counted peak must be exactly 0; the same '
+               'tolerances for every dtype (float32 and integer records are judged as the float64 numbers they hold)',
                'the orientation (global sign) of the delta series is not fixed by the statement and is not judged',
                'shift invariance is judged when the shifted input reproduces the differences exactly or when the '
-               'smallest step is >= 1000 ulps of the shifted values']
-EXHAUSTIVE = {'quick': '{0..4}^n, n=2..7 x {float, int, shifted -2} x {delta, pseudo-cyclic}; {-2..2}^n, n=2..5 x cycle/amplitude',
+               'smallest step is >= 1000 ulps of the shifted values',
+               'argument purity: every ndarray / list argument is compared bit-for-bit (dtype, shape, bytes) before and '
+               'after each monitored call; the oracles read the arguments only after that comparison succeeded',
+               'array b for the combined function is documented as float and not judged']
+EXHAUSTIVE = {'quick': '{0..4}^n, n=2..7 x {float, shifted -2} (+ int for n<=6) x {delta, pseudo-cyclic}; {-2..2}^n, n=2..5 x cycle/amplitude',
               'thorough': '{0..4}^n, n=2..8 x {float, int, shifted -2} x {delta, pseudo-cyclic}; {-2..2}^n, n=2..6 x cycle/amplitude'}
-_MIN_QUICK = {'delta.sum|d|==TV': 150000, 'delta.|sum d|==|end-start|': 150000, 'delta.zero-off-peaks': 150000,
-              'delta.length': 150000, 'pseudo.length': 150000, 'pseudo.zero-off-peaks': 150000,
-              'pseudo.sum==TV/2+offset/2*sign(last move)': 150000, 'delta.shift-invariant': 50000,
-              'pseudo.shift-invariant': 50000, 'int-input==float-input': 100000,
-              'ncyc==reference': 20000, 'ncyc.nondecreasing': 19000, 'ncyc.length': 19000, 'ncyc.accepts-sequences': 1500,
-              'amp==reference': 50000, 'amp.nondecreasing': 43000, 'amp.length': 43000,
-              'gm==sqrt(amp0*amp1)': 10000, 'gm.length': 8000, 'combined==reference': 7500, 'combined.length': 7500,
-              'combined.nondecreasing': 7500, 'inverse(cut_off=0)': 6000,
-              'inverse(cut_off>0)==a_ref*(S_all/S_kept)^b': 4000, 'amp.scales-linearly': 2000,
-              'ncyc.joint-scaling-invariant': 2500, 'combined(x,x)==2^b*amp(x)': 5000, 'gm(x,x)==amp(x)': 5000,
-              'gm(x,y)==sqrt(amp(x)*amp(y))': 1800, 'array-b column==scalar-b': 900}
-# thorough: the enumerations grow 5x, the random part 20x (about half of what a run reaches)
+_MIN_QUICK = {'delta.sum|d|==TV': 115000, 'delta.|sum d|==|end-start|': 115000, 'delta.zero-off-peaks': 115000,
+              'delta.length': 115000, 'pseudo.length': 115000, 'pseudo.zero-off-peaks': 115000,
+              'pseudo.sum==TV/2+offset/2*sign(last move)': 115000, 'delta.shift-invariant': 50000,
+              'pseudo.shift-invariant': 50000, 'int-input==float-input': 21000, 'args.unchanged': 330000,
+              'ncyc==reference': 25000, 'ncyc.nondecreasing': 23000, 'ncyc.length': 23000, 'ncyc.accepts-sequences': 2000,
+              'amp==reference': 64000, 'amp.nondecreasing': 54000, 'amp.length': 54000,
+              'gm==sqrt(amp0*amp1)': 14000, 'gm.length': 12000, 'combined==reference': 11000, 'combined.length': 11000,
+              'combined.nondecreasing': 11000, 'inverse(cut_off=0)': 5800,
+              'inverse(cut_off>0)==a_ref*(S_all/S_kept)^b': 3900, 'amp.scales-linearly': 1800,
+              'ncyc.joint-scaling-invariant': 2200, 'combined(x,x)==2^b*amp(x)': 4500, 'gm(x,x)==amp(x)': 5000,
+              'gm(x,y)==sqrt(amp(x)*amp(y))': 1900, 'array-b column==scalar-b': 900, 'b.accepts-sequences': 1200,
+              'container-form==float64-array': 6500, 'option-form==plain-float': 3400,
+              'result.stable-after-next-call': 1900, 'long-record(>2**16) driven': 2}
+# thorough: the enumerations grow 5x (integer variants at every length), the random part 20x (about half of a run)
 _MIN_THOROUGH = {'delta.sum|d|==TV': 900000, 'delta.|sum d|==|end-start|': 900000, 'delta.zero-off-peaks': 900000,
                  'delta.length': 900000, 'pseudo.length': 900000, 'pseudo.zero-off-peaks': 900000,
-                 'pseudo.sum==TV/2+offset/2*sign(last move)': 900000, 'delta.shift-invariant': 300000,
-                 'pseudo.shift-invariant': 300000, 'int-input==float-input': 500000,
-                 'ncyc==reference': 350000, 'ncyc.nondecreasing': 330000, 'ncyc.length': 330000,
-                 'ncyc.accepts-sequences': 36000, 'amp==reference': 880000, 'amp.nondecreasing': 730000,
-                 'amp.length': 730000, 'gm==sqrt(amp0*amp1)': 180000, 'gm.length': 140000, 'combined==reference': 120000,
-                 'combined.length': 120000, 'combined.nondecreasing': 120000, 'inverse(cut_off=0)': 98000,
-                 'inverse(cut_off>0)==a_ref*(S_all/S_kept)^b': 69000, 'amp.scales-linearly': 40000,
-                 'ncyc.joint-scaling-invariant': 50000, 'combined(x,x)==2^b*amp(x)': 72000, 'gm(x,x)==amp(x)': 82000,
-                 'gm(x,y)==sqrt(amp(x)*amp(y))': 39000, 'array-b column==scalar-b': 18000}
+                 'pseudo.sum==TV/2+offset/2*sign(last move)': 900000, 'delta.shift-invariant': 290000,
+                 'pseudo.shift-invariant': 290000, 'int-input==float-input': 500000, 'args.unchanged': 3000000,
+                 'ncyc==reference': 400000, 'ncyc.nondecreasing': 360000, 'ncyc.length': 360000,
+                 'ncyc.accepts-sequences': 40000, 'amp==reference': 1000000, 'amp.nondecreasing': 850000,
+                 'amp.length': 850000, 'gm==sqrt(amp0*amp1)': 240000, 'gm.length': 200000, 'combined==reference': 180000,
+                 'combined.length': 180000, 'combined.nondecreasing': 180000, 'inverse(cut_off=0)': 85000,
+                 'inverse(cut_off>0)==a_ref*(S_all/S_kept)^b': 55000, 'amp.scales-linearly': 35000,
+                 'ncyc.joint-scaling-invariant': 42000, 'combined(x,x)==2^b*amp(x)': 60000, 'gm(x,x)==amp(x)': 70000,
+                 'gm(x,y)==sqrt(amp(x)*amp(y))': 37000, 'array-b column==scalar-b': 18000, 'b.accepts-sequences': 23000,
+                 'container-form==float64-array': 125000, 'option-form==plain-float': 65000,
+                 'result.stable-after-next-call': 36000, 'long-record(>2**16) driven': 16}
 MIN_EVALS = {'quick': _MIN_QUICK, 'thorough': _MIN_THOROUGH}
 CTX = None
 
@@ -87,6 +104,8 @@ def _rt(b):
     return 1e-6 if b < 0.1 else 1e-9
 
 
+
+
 # ---------------------------------------------------------------------------------------------------- input handling
 _CACHE = {}
 
@@ -94,7 +113,7 @@ _CACHE = {}
 def _domain(values):
     """(python-float list, oracle excursion peaks) of an in-domain series, else None (not judged)."""
     if isinstance(values, np.ndarray):
-        if values.ndim != 1 or values.dtype.kind not in 'if' or values.dtype.itemsize < 8:
+        if values.ndim != 1 or values.dtype.kind not in 'iuf' or (values.dtype.kind == 'f' and values.dtype.itemsize not in (4, 8)):
             return None
         key = ('a', values.dtype.str, values.tobytes())
     elif isinstance(values, (list, tuple)):
@@ -111,9 +130,10 @@ def _domain(values):
     res = 0
     try:
         a = np.asarray(values)
-        if a.ndim == 1 and a.size >= 2 and a.dtype.kind in 'if':
+        if a.ndim == 1 and a.size >= 2 and a.dtype.kind in 'iuf':
+            exact = a.dtype.kind == 'f' or int(np.max(np.abs(a.astype(object)))) <= 2 ** 53
             a = a.astype(float)
-            if np.all(np.isfinite(a)) and a.min() != a.max():
+            if exact and np.all(np.isfinite(a)) and a.min() != a.max():
                 vals = a.tolist()
                 res = (vals, C.excursion_peaks(vals))
     except Exception:
@@ -127,7 +147,12 @@ def _domain(values):
 def _bs(b):
     """(list of exponents, is_array) or (None, _) when b is neither a scalar nor a 1-D array."""
     if hasattr(b, '__len__'):
-        arr = np.asarray(b, dtype=float)
+        try:
+            arr = np.asarray(b, dtype=float)
+        except Exception:
+            return None, True
+        if arr.ndim == 0:
+            return [float(arr)], False
         if arr.ndim != 1 or arr.size == 0:
             return None, True
         return arr.tolist(), True
@@ -141,13 +166,13 @@ def _b_ok(bs):
     return bs is not None and all(0.05 < v <= 1.0 for v in bs)
 
 
-def _range_ok(peaks, div, bs):
-    """All powers (|p|/div)^(1/b) representable far from under/overflow."""
+def _range_ok(peaks, div, bs, lim=280):
+    """All powers (|p|/div)^(1/b) representable far from under/overflow (lim decades)."""
     ms = [m for (_f, _l, m) in peaks if m > 0]
     if not ms or not (div > 0) or not math.isfinite(div):
         return False
     lo, hi = math.log10(min(ms) / div), math.log10(max(ms) / div)
-    return all(-280 <= lo / b and hi / b <= 280 for b in bs)
+    return all(-lim <= lo / b and hi / b <= lim for b in bs)
 
 
 def _wit(fn, **kw):
@@ -384,29 +409,91 @@ def _arg(args, kwargs, i, name, default=None):
     return kwargs.get(name, default)
 
 
+NAMES = {DELTA: ('values',), PSEUDO: ('values',), NCYC: ('values', 'a_ref', 'b', 'cut_off'), AMP: ('values', 'n_cyc', 'b'),
+         GM: ('values0', 'values1', 'n_cyc', 'b'), COMB: ('values0', 'values1', 'n_cyc', 'b')}
+
+
+# -- argument purity: every array / list argument bit-for-bit unchanged by the call -----------------------------------
+def _snap(a):
+    if isinstance(a, np.ndarray):
+        return (a.dtype.str, a.shape, a.tobytes())
+    if isinstance(a, list):
+        return list(a)
+    return None
+
+
+def _pre(args, kwargs):
+    return [_snap(a) for a in args], {k: _snap(v) for k, v in kwargs.items()}
+
+
+def _unchanged(a, sn):
+    if sn is None:
+        return True
+    if isinstance(a, np.ndarray):
+        return (a.dtype.str, a.shape) == sn[:2] and a.tobytes() == sn[2]
+    return len(a) == len(sn) and all(type(u) is type(v) and u == v for u, v in zip(a, sn))
+
+
+def _restore(a, sn):
+    if sn is None:
+        return a
+    if isinstance(a, np.ndarray):
+        return np.frombuffer(sn[2], dtype=sn[0]).reshape(sn[1]).copy()
+    return list(sn)
+
+
+def _purity(fname, args, kwargs, pre):
+    """True when every argument still holds the bits it had at call entry (only then are the values judged)."""
+    if pre is None:
+        return True
+    ps, pk = pre
+    if all(_unchanged(a, sn) for a, sn in zip(args, ps)) and all(_unchanged(kwargs[k], pk[k]) for k in kwargs):
+        CTX.ok('args.unchanged')
+        return True
+    w = {'fn': fname}
+    for i, (a, sn) in enumerate(zip(args, ps)):
+        w[NAMES[fname][i]] = _restore(a, sn)
+    for k in kwargs:
+        w[k] = _restore(kwargs[k], pk[k])
+    CTX.violation('args.unchanged', w, '%s modified one of its arguments' % fname)
+    return False
+
+
 def _post_delta(args, kwargs, result, pre):
+    if not _purity(DELTA, args, kwargs, pre):
+        return
     check_delta(CTX, _arg(args, kwargs, 0, 'values'), result)
 
 
 def _post_pseudo(args, kwargs, result, pre):
+    if not _purity(PSEUDO, args, kwargs, pre):
+        return
     check_pseudo(CTX, _arg(args, kwargs, 0, 'values'), result)
 
 
 def _post_ncyc(args, kwargs, result, pre):
+    if not _purity(NCYC, args, kwargs, pre):
+        return
     check_ncyc(CTX, _arg(args, kwargs, 0, 'values'), _arg(args, kwargs, 1, 'a_ref'), _arg(args, kwargs, 2, 'b'),
                _arg(args, kwargs, 3, 'cut_off', 0.01), result)
 
 
 def _post_amp(args, kwargs, result, pre):
+    if not _purity(AMP, args, kwargs, pre):
+        return
     check_amp(CTX, _arg(args, kwargs, 0, 'values'), _arg(args, kwargs, 1, 'n_cyc'), _arg(args, kwargs, 2, 'b'), result)
 
 
 def _post_gm(args, kwargs, result, pre):
+    if not _purity(GM, args, kwargs, pre):
+        return
     check_gm(CTX, _arg(args, kwargs, 0, 'values0'), _arg(args, kwargs, 1, 'values1'), _arg(args, kwargs, 2, 'n_cyc'),
              _arg(args, kwargs, 3, 'b'), result)
 
 
 def _post_comb(args, kwargs, result, pre):
+    if not _purity(COMB, args, kwargs, pre):
+        return
     check_comb(CTX, _arg(args, kwargs, 0, 'values0'), _arg(args, kwargs, 1, 'values1'), _arg(args, kwargs, 2, 'n_cyc'),
                _arg(args, kwargs, 3, 'b'), result)
 
@@ -416,18 +503,30 @@ def install(ctx):
     CTX = ctx
     import eqsig
     pc = eqsig.fns.peaks_and_crossings
-    attach.wrap(pc, DELTA, _post_delta)
-    attach.wrap(pc, PSEUDO, _post_pseudo)
-    attach.wrap(eqsig.im, NCYC, _post_ncyc)
-    attach.wrap(eqsig.im, AMP, _post_amp)
-    attach.wrap(eqsig.im, GM, _post_gm)
-    attach.wrap(eqsig.im, COMB, _post_comb)
+    attach.wrap(pc, DELTA, _post_delta, pre=_pre)
+    attach.wrap(pc, PSEUDO, _post_pseudo, pre=_pre)
+    attach.wrap(eqsig.im, NCYC, _post_ncyc, pre=_pre)
+    attach.wrap(eqsig.im, AMP, _post_amp, pre=_pre)
+    attach.wrap(eqsig.im, GM, _post_gm, pre=_pre)
+    attach.wrap(eqsig.im, COMB, _post_comb, pre=_pre)
 
 
 # ------------------------------------------------------------------------------------------------ monitored calls
+_STYLE = {'n': 0, 'force': None}
+
+
+def _by_keyword():
+    """Every third driver call passes everything by keyword (replay forces both styles)."""
+    if _STYLE['force'] is not None:
+        return bool(_STYLE['force'])
+    _STYLE['n'] += 1
+    return _STYLE['n'] % 3 == 0
+
+
 def _series_fn(eqsig, ctx, fname, x):
     try:
-        return np.asarray(getattr(eqsig, fname)(x))
+        f = getattr(eqsig, fname)
+        return np.asarray(f(values=x) if _by_keyword() else f(x))
     except Exception as e:
         ctx.exception(('delta' if fname == DELTA else 'pseudo') + '.length', _wit(fname, values=x), e)
         return None
@@ -436,38 +535,66 @@ def _series_fn(eqsig, ctx, fname, x):
 def _ncyc(eqsig, ctx, x, a_ref, b, cut_off):
     seq = isinstance(x, (list, tuple))
     try:
-        r = np.asarray(eqsig.im.calc_n_cyc_array_w_power_law(x, a_ref, b, cut_off=cut_off), dtype=float)
+        f = eqsig.im.calc_n_cyc_array_w_power_law
+        k = _by_keyword()
+        r = f(values=x, a_ref=a_ref, b=b, cut_off=cut_off) if k else \
+            (f(x, a_ref, b, cut_off) if _STYLE['n'] % 2 else f(x, a_ref, b, cut_off=cut_off))
+        r = np.asarray(r, dtype=float)
     except Exception as e:
-        # python sequences are "array_like" too: their own clause, so that the evidence shows how often they were tried
-        ctx.exception('ncyc.accepts-sequences' if seq else 'ncyc==reference', _wit(NCYC, values=x, a_ref=a_ref, b=b, cut_off=cut_off), e)
+        # python sequences are "array_like" too: their own clauses, so that the evidence shows how often they were tried
+        clause = 'ncyc.accepts-sequences' if seq else ('b.accepts-sequences' if isinstance(b, (list, tuple)) else 'ncyc==reference')
+        ctx.exception(clause, _wit(NCYC, values=x, a_ref=a_ref, b=b, cut_off=cut_off), e)
         return None
     if seq:
         ctx.ok('ncyc.accepts-sequences')
+    if isinstance(b, (list, tuple)):
+        ctx.ok('b.accepts-sequences')
     return r
 
 
 def _amp(eqsig, ctx, x, n_cyc, b):
     try:
-        return np.asarray(eqsig.im.calc_cyc_amp_array_w_power_law(x, n_cyc, b), dtype=float)
+        f = eqsig.im.calc_cyc_amp_array_w_power_law
+        r = np.asarray(f(values=x, n_cyc=n_cyc, b=b) if _by_keyword() else f(x, n_cyc, b), dtype=float)
     except Exception as e:
-        ctx.exception('amp==reference', _wit(AMP, values=x, n_cyc=n_cyc, b=b), e)
+        ctx.exception('b.accepts-sequences' if isinstance(b, (list, tuple)) else 'amp==reference', _wit(AMP, values=x, n_cyc=n_cyc, b=b), e)
         return None
+    if isinstance(b, (list, tuple)):
+        ctx.ok('b.accepts-sequences')
+    return r
 
 
 def _gm(eqsig, ctx, x, y, n_cyc, b):
     try:
-        return np.asarray(eqsig.im.calc_cyc_amp_gm_arrays_w_power_law(x, y, n_cyc, b), dtype=float)
+        f = eqsig.im.calc_cyc_amp_gm_arrays_w_power_law
+        r = np.asarray(f(values0=x, values1=y, n_cyc=n_cyc, b=b) if _by_keyword() else f(x, y, n_cyc, b), dtype=float)
     except Exception as e:
-        ctx.exception('gm==sqrt(amp0*amp1)', _wit(GM, values0=x, values1=y, n_cyc=n_cyc, b=b), e)
+        ctx.exception('b.accepts-sequences' if isinstance(b, (list, tuple)) else 'gm==sqrt(amp0*amp1)',
+                      _wit(GM, values0=x, values1=y, n_cyc=n_cyc, b=b), e)
         return None
+    if isinstance(b, (list, tuple)):
+        ctx.ok('b.accepts-sequences')
+    return r
 
 
 def _comb(eqsig, ctx, x, y, n_cyc, b):
     try:
-        return np.asarray(eqsig.im.calc_cyc_amp_combined_arrays_w_power_law(x, y, n_cyc, b), dtype=float)
+        f = eqsig.im.calc_cyc_amp_combined_arrays_w_power_law
+        return np.asarray(f(values0=x, values1=y, n_cyc=n_cyc, b=b) if _by_keyword() else f(x, y, n_cyc, b), dtype=float)
     except Exception as e:
         ctx.exception('combined==reference', _wit(COMB, values0=x, values1=y, n_cyc=n_cyc, b=b), e)
         return None
+
+
+def _invoke(eqsig, ctx, fname, x, params):
+    """Call one of the six functions; params = the arguments after the first record."""
+    if fname in (DELTA, PSEUDO):
+        return _series_fn(eqsig, ctx, fname, x)
+    if fname == NCYC:
+        return _ncyc(eqsig, ctx, x, *params)
+    if fname == AMP:
+        return _amp(eqsig, ctx, x, *params)
+    return (_gm if fname == GM else _comb)(eqsig, ctx, x, *params)
 
 
 def _scaled(x, alpha):
@@ -518,17 +645,10 @@ def rel_dtype(eqsig, ctx, fname, xi, params):
     """f(integer container) == f(float64 array of the same numbers)."""
     xf = np.asarray(xi, dtype=float)
     W = lambda **kw: _wit('rel:dtype', fname=fname, xi=xi, params=params, **kw)
-    if fname in (DELTA, PSEUDO):
-        ri, rf = _series_fn(eqsig, ctx, fname, xi), _series_fn(eqsig, ctx, fname, xf)
-    elif fname == NCYC:
-        ri, rf = _ncyc(eqsig, ctx, xi, *params), _ncyc(eqsig, ctx, xf, *params)
-    elif fname == AMP:
-        ri, rf = _amp(eqsig, ctx, xi, *params), _amp(eqsig, ctx, xf, *params)
-    else:
-        yi = params[0]
-        yf = np.asarray(yi, dtype=float)
-        f = _gm if fname == GM else _comb
-        ri, rf = f(eqsig, ctx, xi, yi, *params[1:]), f(eqsig, ctx, xf, yf, *params[1:])
+    pf = list(params)
+    if fname in (GM, COMB):
+        pf[0] = np.asarray(pf[0], dtype=float)
+    ri, rf = _invoke(eqsig, ctx, fname, xi, params), _invoke(eqsig, ctx, fname, xf, pf)
     if ri is None or rf is None:
         return
     ri = np.asarray(ri, dtype=float)
@@ -651,14 +771,14 @@ def rel_identical(eqsig, ctx, x, n_cyc, b):
     if A1 is None:
         return
     if not hasattr(b, '__len__'):
-        Ac = _comb(eqsig, ctx, x, _copy(x), n_cyc, b)
+        Ac = _comb(eqsig, ctx, x, x if len(x) % 2 else _copy(x), n_cyc, b)      # the SAME object for both parameters / a copy
         if Ac is not None:
             ref = 2.0 ** b * A1
             ok = Ac.shape == ref.shape and tol.close(Ac, ref, scale=np.abs(ref), rtol=_rt(b))
             ctx.check(ok, 'combined(x,x)==2^b*amp(x)', lambda: _wit('rel:identical', x=x, n_cyc=n_cyc, b=b, amp=A1, combined=Ac),
                       'combined(x,x) != 2^b*amp(x): %s (n_cyc=%r b=%r)'
                       % (tol.describe(Ac, ref, scale=np.abs(ref), rtol=_rt(b)) if Ac.shape == ref.shape else 'shapes', n_cyc, b))
-    Ag = _gm(eqsig, ctx, x, _copy(x), n_cyc, b)
+    Ag = _gm(eqsig, ctx, x, _copy(x) if len(x) % 2 else x, n_cyc, b)
     if Ag is not None:
         ok = Ag.shape == A1.shape and bool(np.all(np.abs(Ag - A1) <= 4 * np.spacing(np.abs(A1))))
         ctx.check(ok, 'gm(x,x)==amp(x)', lambda: _wit('rel:identical', x=x, n_cyc=n_cyc, b=b, amp=A1, gm=Ag),
@@ -702,7 +822,7 @@ def rel_bcols(eqsig, ctx, x, a_ref, n_cyc, bvec, cut_off, j):
                   'amplitude: column %d of array b %s differs from scalar b=%r' % (j, list(bvec), bj))
 
 
-def rel_enum(eqsig, ctx, fname, seq, k):
+def rel_enum(eqsig, ctx, fname, seq, k, with_int=True):
     """One member of the enumerated alphabet: f on the float64 array, on the integer container (int64 array, every 5th a
     list) and on the series shifted by -2 (which moves the first value across zero for part of the alphabet; float and
     integer shifts alternate); then f(int) == f(float) and f(shifted) == f(unshifted)."""
@@ -710,10 +830,13 @@ def rel_enum(eqsig, ctx, fname, seq, k):
     xf = np.array(seq, dtype=float)
     xi = np.array(seq, dtype=np.int64) if k % 5 else list(seq)
     xs = _shifted(xf, -2.0) if k % 2 else _shifted(xi, -2)
+    if not with_int:        # quick tier, longest sequences: float64 and shifted float64 only
+        k |= 1
+        xs = _shifted(xf, -2.0)
     rf = _series_fn(eqsig, ctx, fname, xf)
-    ri = _series_fn(eqsig, ctx, fname, xi)
+    ri = _series_fn(eqsig, ctx, fname, xi) if with_int else None
     rs = _series_fn(eqsig, ctx, fname, xs)
-    W = lambda **kw: _wit('rel:enum', fname=fname, seq=list(seq), k=k, **kw)
+    W = lambda **kw: _wit('rel:enum', fname=fname, seq=list(seq), k=k, with_int=with_int, **kw)
     if rf is not None and ri is not None:
         ctx.check(rf.shape == ri.shape and bool(np.all(rf == ri)), 'int-input==float-input', lambda: W(f_int=ri, f_float=rf),
                   '%s differs between integer input %s -> %s and float input -> %s' % (fname, list(seq), ri.tolist(), rf.tolist()))
@@ -724,8 +847,174 @@ def rel_enum(eqsig, ctx, fname, seq, k):
                   '%s changes under the constant shift -2: %s -> %s vs %s' % (fname, list(seq), base.tolist(), rs.tolist()))
 
 
-RELATIONS = {'rel:enum': lambda e, c, w: rel_enum(e, c, w['fname'], tuple(w['seq']), w['k']),
+ALL6 = (DELTA, PSEUDO, NCYC, AMP, GM, COMB)
+REAL_FORMS = ('noncontig', 'reversed-view', 'readonly', 'list-float', 'tuple-float', 'mixed-list', 'float32', 'accsignal.values')
+INT_FORMS = ('int8', 'int16', 'int32', 'int64', 'uint8', 'uint16', 'int8-full', 'int16-full', 'int32-full', 'int64-full',
+             'uint8-full', 'uint16-full', 'list-int', 'tuple-int', 'mixed-list', 'noncontig-int', 'readonly-int')
+
+
+def make_forms(eqsig, label, x, y):
+    """The two float64 records x, y re-expressed as another container / dtype (same conversion for both); None when the
+    form cannot hold them. '-full' integer forms are scaled to ~90 % of the dtype's range (int64: of 2**52, so that the
+    float64 twin holds the same numbers) - sums and products of neighbouring samples then exceed the dtype."""
+    def both(f):
+        return f(x), f(y)
+    if label.startswith('noncontig'):
+        def f(v):
+            big = np.zeros(2 * len(v), dtype=np.int64 if label.endswith('int') else float)
+            big[::2] = v
+            return big[::2]
+        return both(f)
+    if label == 'reversed-view':
+        return both(lambda v: v[::-1].copy()[::-1])
+    if label.startswith('readonly'):
+        def f(v):
+            v = np.array(v, dtype=np.int64 if label.endswith('int') else float)
+            v.flags.writeable = False
+            return v
+        return both(f)
+    if label == 'list-float':
+        return both(lambda v: [float(u) for u in v])
+    if label == 'tuple-float':
+        return both(lambda v: tuple(float(u) for u in v))
+    if label == 'list-int':
+        return both(lambda v: [int(u) for u in v])
+    if label == 'tuple-int':
+        return both(lambda v: tuple(int(u) for u in v))
+    if label == 'mixed-list':
+        return both(lambda v: [int(round(u)) if i % 2 == 0 else float(u) for i, u in enumerate(v)])
+    if label == 'float32':
+        m = max(float(np.max(np.abs(x))), float(np.max(np.abs(y))))
+        if not 1e-30 < m < 1e30:
+            return None
+        with np.errstate(all='ignore'):
+            return both(lambda v: v.astype(np.float32))
+    if label == 'accsignal.values':
+        return both(lambda v: eqsig.AccSignal(v, 0.01).values)
+    name = label.split('-')[0]
+    info = np.iinfo(name)
+    xs, ys = x, y
+    if name.startswith('u'):
+        lo = min(float(x.min()), float(y.min()))
+        xs, ys = x - lo, y - lo
+    m = max(float(np.max(np.abs(xs))), float(np.max(np.abs(ys))))
+    cap = min(int(info.max), 2 ** 52)
+    if m == 0 or m > cap or not (np.all(xs == np.round(xs)) and np.all(ys == np.round(ys))):
+        return None
+    k = int(0.9 * cap // m) if label.endswith('-full') else 1
+    if k < 1:
+        return None
+    fx, fy = (xs * k).astype(name), (ys * k).astype(name)
+    if label.endswith('-full') and not name.startswith('u'):
+        for f in (fx, fy):          # the most negative sample takes the dtype's minimum (whose abs() does not fit)
+            if f.min() < 0:
+                f[int(np.argmin(f))] = max(int(info.min), -cap)
+    return fx, fy
+
+
+def rel_form(eqsig, ctx, label, x, y, a_rel, b, cut_off, n_cyc):
+    """Every function on the records held in another container / dtype: judged by the monitors and compared with the
+    result for the contiguous float64 array of the same numbers."""
+    try:
+        forms = make_forms(eqsig, label, x, y)
+    except Exception as e:
+        ctx.exception('container-form==float64-array', _wit('rel:form', label=label, x=x, y=y, a_rel=a_rel, b=b, cut_off=cut_off, n_cyc=n_cyc), e)
+        return
+    if forms is None:
+        ctx.observe('form %s cannot hold the drawn record (skipped)' % label)
+        return
+    fx, fy = forms
+    bx, by = np.array(fx, dtype=float), np.array(fy, dtype=float)
+    if bx.min() == bx.max() or by.min() == by.max():
+        ctx.observe('form %s flattens the drawn record (skipped)' % label)
+        return
+    n = len(bx)
+    a_ref = a_rel * float(np.max(np.abs(bx)))
+    for fname in ALL6:
+        pf = {DELTA: [], PSEUDO: [], NCYC: [a_ref, b, cut_off], AMP: [n_cyc, b], GM: [fy, n_cyc, b], COMB: [fy, n_cyc, b]}[fname]
+        pb = [by] + pf[1:] if fname in (GM, COMB) else pf
+        rf = _invoke(eqsig, ctx, fname, fx, pf)
+        rb = _invoke(eqsig, ctx, fname, bx, pb)
+        if rf is None or rb is None:
+            continue
+        rf = np.asarray(rf, dtype=float)
+        rb = np.asarray(rb, dtype=float)
+        if fname in (DELTA, PSEUDO):
+            ok = rf.shape == rb.shape and bool(np.all(rf == rb))
+        else:
+            rt = 1e-12
+            ok = rf.reshape(n, -1).shape == rb.reshape(n, -1).shape and tol.close(rf.reshape(n, -1), rb.reshape(n, -1),
+                                                                                  scale=np.abs(rb.reshape(n, -1)), rtol=rt)
+        ctx.check(ok, 'container-form==float64-array',
+                  lambda: _wit('rel:form', label=label, x=x, y=y, a_rel=a_rel, b=b, cut_off=cut_off, n_cyc=n_cyc, fname=fname,
+                               f_form=rf, f_float64=rb),
+                  '%s on the %s form of %s... differs from the float64 array of the same numbers: %s vs %s'
+                  % (fname, label, bx[:8].tolist(), rf.ravel()[:8].tolist(), rb.ravel()[:8].tolist()))
+
+
+def rel_b2b(eqsig, ctx, fname, x, px, y, py):
+    """Two different inputs of one shape back to back: the first result, still held, must not change when the second call
+    runs (no shared scratch buffer), the results must not share memory, and repeating the first call reproduces it."""
+    r1 = _invoke(eqsig, ctx, fname, x, px)
+    if r1 is None:
+        return
+    keep = r1.copy()
+    r2 = _invoke(eqsig, ctx, fname, y, py)
+    r3 = _invoke(eqsig, ctx, fname, x, px)
+    ok = r1.shape == keep.shape and r1.tobytes() == keep.tobytes()
+    ok = ok and (r2 is None or not np.shares_memory(r1, r2))
+    ok = ok and r3 is not None and r3.shape == keep.shape and r3.tobytes() == keep.tobytes()
+    ctx.check(ok, 'result.stable-after-next-call', lambda: _wit('rel:b2b', fname=fname, x=x, px=px, y=y, py=py, first=keep, first_after=r1, again=r3),
+              '%s: the result for %s... changed after the next call / is not reproduced' % (fname, np.asarray(x, dtype=float)[:8].tolist()))
+
+
+def _same(ctx, got, ref, what, wit):
+    if got is None or ref is None:
+        return
+    n = ref.shape[0]
+    ok = got.shape[0] == n and got.reshape(n, -1).shape == ref.reshape(n, -1).shape \
+        and tol.close(got.reshape(n, -1), ref.reshape(n, -1), scale=np.abs(ref.reshape(n, -1)), rtol=1e-12)
+    ctx.check(ok, 'option-form==plain-float', lambda: wit(which=what, got=got, expected=ref), 'option form %s changes the result' % what)
+
+
+def rel_optform(eqsig, ctx, x, y, a_ref, b, b2, cut_off, n_cyc):
+    """The numeric options in their other accepted forms (numpy scalars, 0-d arrays, python ints, list / tuple b)
+    must give the result of the plain python floats / of the ndarray b."""
+    W = lambda **kw: _wit('rel:optform', x=x, y=y, a_ref=a_ref, b=b, b2=b2, cut_off=cut_off, n_cyc=n_cyc, **kw)
+    bv = np.array([b, b2])
+    N = _ncyc(eqsig, ctx, x, a_ref, b, cut_off)
+    A = _amp(eqsig, ctx, x, n_cyc, b)
+    Cb = _comb(eqsig, ctx, x, y, n_cyc, b)
+    G = _gm(eqsig, ctx, x, y, n_cyc, b)
+    Nv = _ncyc(eqsig, ctx, x, a_ref, bv, cut_off)
+    Av = _amp(eqsig, ctx, x, n_cyc, bv)
+    Gv = _gm(eqsig, ctx, x, y, n_cyc, bv)
+    f8 = np.float64
+    _same(ctx, _ncyc(eqsig, ctx, x, f8(a_ref), f8(b), f8(cut_off)), N, 'ncyc(np.float64 scalars)', W)
+    _same(ctx, _amp(eqsig, ctx, x, f8(n_cyc), f8(b)), A, 'amp(np.float64 scalars)', W)
+    _same(ctx, _comb(eqsig, ctx, x, y, f8(n_cyc), f8(b)), Cb, 'combined(np.float64 scalars)', W)
+    _same(ctx, _gm(eqsig, ctx, x, y, f8(n_cyc), f8(b)), G, 'gm(np.float64 scalars)', W)
+    _same(ctx, _ncyc(eqsig, ctx, x, np.array(a_ref), np.array(b), np.array(cut_off)), N, 'ncyc(0-d arrays)', W)
+    _same(ctx, _amp(eqsig, ctx, x, np.array(n_cyc), np.array(b)), A, 'amp(0-d arrays)', W)
+    _same(ctx, _ncyc(eqsig, ctx, x, a_ref, [b, b2], cut_off), Nv, 'ncyc(b list)', W)
+    _same(ctx, _ncyc(eqsig, ctx, x, a_ref, (b, b2), cut_off), Nv, 'ncyc(b tuple)', W)
+    _same(ctx, _amp(eqsig, ctx, x, n_cyc, [b, b2]), Av, 'amp(b list)', W)
+    _same(ctx, _amp(eqsig, ctx, x, n_cyc, (b, b2)), Av, 'amp(b tuple)', W)
+    _same(ctx, _gm(eqsig, ctx, x, y, n_cyc, [b, b2]), Gv, 'gm(b list)', W)
+    # python ints for integral option values; cut_off = 0 and b = 1 are the boundary values of the quantifier
+    ni = max(1, int(round(n_cyc)))
+    ai = max(1, int(round(a_ref))) if a_ref < 1e15 else None
+    _same(ctx, _amp(eqsig, ctx, x, ni, 1), _amp(eqsig, ctx, x, float(ni), 1.0), 'amp(int n_cyc, int b=1)', W)
+    _same(ctx, _comb(eqsig, ctx, x, y, ni, 1), _comb(eqsig, ctx, x, y, float(ni), 1.0), 'combined(int n_cyc, int b=1)', W)
+    if ai is not None:
+        _same(ctx, _ncyc(eqsig, ctx, x, ai, 1, 0), _ncyc(eqsig, ctx, x, float(ai), 1.0, 0.0), 'ncyc(int a_ref, int b=1, int cut_off=0)', W)
+
+
+RELATIONS = {'rel:enum': lambda e, c, w: rel_enum(e, c, w['fname'], tuple(w['seq']), w['k'], w.get('with_int', True)),
              'rel:shift': lambda e, c, w: rel_shift(e, c, w['fname'], w['x'], w['c']),
+             'rel:form': lambda e, c, w: rel_form(e, c, w['label'], w['x'], w['y'], w['a_rel'], w['b'], w['cut_off'], w['n_cyc']),
+             'rel:b2b': lambda e, c, w: rel_b2b(e, c, w['fname'], w['x'], w['px'], w['y'], w['py']),
+             'rel:optform': lambda e, c, w: rel_optform(e, c, w['x'], w['y'], w['a_ref'], w['b'], w['b2'], w['cut_off'], w['n_cyc']),
              'rel:dtype': lambda e, c, w: rel_dtype(e, c, w['fname'], w['xi'], w['params']),
              'rel:inverse': lambda e, c, w: rel_inverse(e, c, w['x'], w['a_ref'], w['b'], w['cut_off'], w.get('at')),
              'rel:amp_scale': lambda e, c, w: rel_amp_scale(e, c, w['x'], w['n_cyc'], w['b'], w['alpha']),
@@ -741,7 +1030,7 @@ INT_CLASSES = ('intnoise', 'plateau', 'intwalk', 'clipped')
 
 def random_series(rng, n):
     """(float64 series, class name, integer_valued)."""
-    k = int(rng.integers(0, 10))
+    k = int(rng.integers(0, 11))
     t = np.arange(n, dtype=float)
     if k == 0:
         x, cls = rng.normal(size=n), 'noise'
@@ -769,8 +1058,27 @@ def random_series(rng, n):
         x = rng.normal(size=n)
         x[rng.random(n) < 0.15] = 0.0
         cls = 'noise+zeros'
-    else:
+    elif k == 9:
         x, cls = np.clip(np.cumsum(rng.integers(-2, 3, size=n)), -3, 3).astype(float), 'clipped'
+    else:
+        # plateaus at the start / end, the extreme at the first or last sample, ending right after a sign change
+        x = np.round(rng.normal(size=n) * 4) if rng.random() < 0.4 else rng.normal(size=n)
+        big = float(np.max(np.abs(x))) + 1.0
+        r = int(rng.integers(0, 4))
+        if r in (0, 2):
+            x[0] = big * rng.choice([-1.0, 1.0])
+        if r in (1, 2):
+            x[-1] = big * rng.choice([-1.0, 1.0])
+        if r == 3 and n > 2:
+            x[-1] = -0.01 * np.sign(x[-2]) if x[-2] != 0 else 0.5
+        if n > 5 and rng.random() < 0.6:
+            pa, pb = int(rng.integers(1, max(2, n // 4))), int(rng.integers(1, max(2, n // 4)))
+            if rng.random() < 0.7:
+                x[:pa] = x[0]
+            if rng.random() < 0.7:
+                x[-pb:] = x[-1]
+        cls = 'edges'
+        return np.asarray(x, dtype=float), cls, bool(np.all(x == np.round(x)))
     x = np.asarray(x, dtype=float)
     integer = cls in INT_CLASSES
     return x, cls, integer
@@ -779,15 +1087,18 @@ def random_series(rng, n):
 def amplitude_and_offset(rng, x, integer):
     """Scale a real series over 1e-12..1e6 (micro-amplitude records included) and optionally add a constant offset."""
     if integer:
-        if rng.random() < 0.25:
+        r = rng.random()
+        if r < 0.25:
             x = x + float(rng.integers(-5, 1000))
             return x, 'int-offset'
+        if r < 0.45 and float(np.max(np.abs(x))) < 9000:
+            return x * float(10 ** int(rng.choice([3, 6, 9, 12]))), 'int-large'     # steps whose products exceed int64
         return x, 'int'
     r = rng.random()
     if r < 0.15:
         amp, tag = float(rng.choice([2e-8, 1e-11, 1e-9, 1e-12])), 'micro'
     elif r < 0.45:
-        amp, tag = 10.0 ** rng.uniform(-12, 6), 'wide'
+        amp, tag = 10.0 ** rng.uniform(-12, 12), 'wide'
     else:
         amp, tag = 10.0 ** rng.uniform(-1, 1), 'unit'
     x = x * amp
@@ -908,6 +1219,60 @@ def power_block(eqsig, ctx, x, cont, integer, rng, c):
         rel_dtype(eqsig, ctx, COMB, cont, [_copy(cont), n_cyc, bi])
 
 
+def audit_block(eqsig, ctx, x, integer, rng, c):
+    """Container / dtype forms, option forms and back-to-back calls on (a window of) one random series."""
+    n = min(len(x), 120)
+    x = np.ascontiguousarray(x[:n])
+    y, _cls, yint = random_series(rng, n)
+    if x.min() == x.max() or y.min() == y.max():
+        return
+    gmax = float(np.max(np.abs(x)))
+    if not (integer and yint):
+        y = y * (gmax * float(10.0 ** rng.uniform(-1, 1)) / float(np.max(np.abs(y))))
+    b = draw_b(rng)
+    b2 = draw_b(rng)
+    cut = draw_cut(rng) if rng.random() < 0.7 else 0.0
+    a_rel = float(10.0 ** rng.uniform(-1, 1.5))
+    n_cyc = float(10.0 ** rng.uniform(-1, 1.5))
+    labels = list(INT_FORMS if integer and yint else REAL_FORMS)
+    # all forms over four consecutive blocks
+    for label in labels[c % 4::4]:
+        rel_form(eqsig, ctx, label, x, y, a_rel, b, cut, n_cyc)
+    if integer and yint and float(np.max(np.abs(x))) < 100 and float(np.max(np.abs(y))) < 100:
+        rel_form(eqsig, ctx, ('int8-full', 'uint8-full', 'int16-full', 'int32-full')[c % 4], x, y, a_rel, b, cut, n_cyc)
+    if c % 2 == 0:
+        rel_optform(eqsig, ctx, x, y, a_rel * gmax, b, b2, cut, n_cyc)
+    else:
+        # two different inputs of one shape, the first result re-read after the second call
+        a_ref = a_rel * gmax
+        bv = np.array([b, b2])
+        for fname, px, py in ((DELTA, [], []), (PSEUDO, [], []), (NCYC, [a_ref, b, cut], [a_ref, b, cut]),
+                              (NCYC, [a_ref, bv, cut], [a_ref, bv, cut]), (AMP, [n_cyc, b], [n_cyc, b]),
+                              (AMP, [n_cyc, bv], [n_cyc, bv]), (GM, [y, n_cyc, b], [x, n_cyc, b]),
+                              (COMB, [y, n_cyc, b], [x, n_cyc, b])):
+            rel_b2b(eqsig, ctx, fname, x, px, y, py)
+
+
+def long_block(eqsig, ctx, rng):
+    """One record longer than 2**16 samples through every function."""
+    n = 2 ** 16 + int(rng.integers(1, 40))
+    k = int(rng.integers(0, 3))
+    x = [rng.normal(size=n), np.convolve(rng.normal(size=n + 6), np.ones(7) / 7, mode='valid')[:n],
+         np.cumsum(rng.integers(-2, 3, size=n)).astype(float)][k]
+    cont = x.astype(np.int64) if k == 2 else x
+    y = np.roll(x, n // 3) * 0.5
+    ctx.case(core.digest(x, 'long'), nontrivial=True, cls='long-%s' % ['noise', 'smooth', 'intwalk'][k])
+    _series_fn(eqsig, ctx, DELTA, cont)
+    _series_fn(eqsig, ctx, PSEUDO, cont)
+    gmax = float(np.max(np.abs(x)))
+    b = draw_b(rng)
+    rel_inverse(eqsig, ctx, cont, gmax * 0.3, b, 0.0)
+    rel_inverse(eqsig, ctx, cont, gmax * 0.3, b, 0.01)
+    _comb(eqsig, ctx, cont, y, 15.0, b)
+    _gm(eqsig, ctx, cont, y, 15.0, b)
+    ctx.ok('long-record(>2**16) driven')
+
+
 def micro_block(eqsig, ctx, rng):
     """Deterministic micro-amplitude records: a unit waveform times 2e-8 / 1e-11 / 1e-12, with and without large offsets."""
     n = int(rng.choice([9, 40, 300]))
@@ -955,9 +1320,10 @@ def run_shard(ctx):
             idx += 1
             if idx % ctx.nshards != ctx.shard or len(set(seq)) < 2:
                 continue
+            with_int = not (quick and L == 7)
             for fname in (DELTA, PSEUDO):
-                rel_enum(eqsig, ctx, fname, seq, idx // ctx.nshards)
-            n_enum += 3
+                rel_enum(eqsig, ctx, fname, seq, idx // ctx.nshards, with_int)
+            n_enum += 3 if with_int else 2
             if idx % 20000 == 1:
                 ctx.sample({'fn': 'delta+pseudo', 'values': list(seq), 'variants': ['float', 'int', 'shift -2']})
     ctx.cases_enumerated(n_enum, n_enum, cls='exhaustive-alphabet(0..4)x{float,int,shifted}')
@@ -987,7 +1353,8 @@ def run_shard(ctx):
         if ctx.out_of_time():
             ctx.note('stopped_early_at_random_case', c)
             break
-        n = int(rng.choice([2, 3, 5, 8, 13, 50, 200, 1000, 5000], p=[.04, .06, .1, .1, .1, .25, .2, .12, .03]))
+        n = int(rng.choice([2, 3, 4, 5, 8, 13, 50, 63, 64, 65, 200, 255, 256, 257, 1000, 1023, 1024, 1025, 5000],
+                           p=[.04, .05, .03, .08, .1, .1, .2, .02, .02, .02, .16, .02, .02, .02, .04, .02, .02, .02, .02]))
         x, cls, integer = random_series(rng, n)
         x, tag = amplitude_and_offset(rng, x, integer)
         nontriv = bool(np.min(x) != np.max(x))
@@ -1009,8 +1376,13 @@ def run_shard(ctx):
             continue
         series_block(eqsig, ctx, x, cont, integer, rng)
         power_block(eqsig, ctx, x, cont, integer, rng, c)
-        if c % 8 == 0:
+        if c % 12 == 0:
             micro_block(eqsig, ctx, rng)
+        if c % 3 == 1:
+            audit_block(eqsig, ctx, x, integer, rng, c // 3)
+    if not quick or ctx.shard % 4 == 0:
+        for _ in range(1 if quick else 2):
+            long_block(eqsig, ctx, rng)
     ctx.note('monitored_calls', dict(attach.CALLS))
 
 
@@ -1021,18 +1393,22 @@ def replay(w):
     ctx = core.Ctx(PROP_ID, 'quick', 0, 0, 1)
     install(ctx)
     fn = w.get('fn')
-    if fn in RELATIONS:
-        RELATIONS[fn](eqsig, ctx, w)
-    elif fn in (DELTA, PSEUDO):
-        _series_fn(eqsig, ctx, fn, w['values'])
-    elif fn == NCYC:
-        _ncyc(eqsig, ctx, w['values'], w['a_ref'], w['b'], w['cut_off'])
-    elif fn == AMP:
-        _amp(eqsig, ctx, w['values'], w['n_cyc'], w['b'])
-    elif fn == GM:
-        _gm(eqsig, ctx, w['values0'], w['values1'], w['n_cyc'], w['b'])
-    elif fn == COMB:
-        _comb(eqsig, ctx, w['values0'], w['values1'], w['n_cyc'], w['b'])
-    else:
-        return ['unknown witness kind %r' % fn]
+    for style in (0, 1):            # positional, then everything by keyword
+        _STYLE['force'] = style
+        if fn in RELATIONS:
+            RELATIONS[fn](eqsig, ctx, w)
+        elif fn in (DELTA, PSEUDO):
+            _series_fn(eqsig, ctx, fn, w['values'])
+        elif fn == NCYC:
+            _ncyc(eqsig, ctx, w['values'], w['a_ref'], w['b'], w.get('cut_off', 0.01))
+        elif fn == AMP:
+            _amp(eqsig, ctx, w['values'], w['n_cyc'], w['b'])
+        elif fn == GM:
+            _gm(eqsig, ctx, w['values0'], w['values1'], w['n_cyc'], w['b'])
+        elif fn == COMB:
+            _comb(eqsig, ctx, w['values0'], w['values1'], w['n_cyc'], w['b'])
+        else:
+            _STYLE['force'] = None
+            return ['unknown witness kind %r' % fn]
+    _STYLE['force'] = None
     return ['%s: %s' % (v['clause'], v['msg']) for v in ctx.violations]
